@@ -483,9 +483,20 @@ package xpath
 //@   modifies nothing
 //@   ensures[nonnil@C15] result != nil
 //@   requires[nonnil-args@C15] arg1 != nil && arg2 != nil && arg3 != nil
+// translate(): the loop builds the pair list (a[j] -> b[j], or -> "" when b is shorter) in the order of
+// a, and a Replacer over that list is XPath's translate (instance replacerTranslate: library semantics,
+// assumed). Stated for ASCII arguments: the loop pairs the j-th rune of a with the j-th byte of b.
+//@ define ascii(s) = forall(i, int, 0 <= i && i < len(s) ==> 0 <= s[i] && s[i] < 128)
+//@ define pairsOf(sl, a, b, n) = forall(j, int, 0 <= j && j < n ==> sl[2 * j] == chr(a[j]) && sl[2 * j + 1] == ite(j < len(b), chr(b[j]), ""))
+//@ instance replacerTranslate(sl, s, a, b) = ascii(a) && ascii(b) && len(sl) == 2 * len(a) && pairsOf(sl, a, b, len(a)) ==> replApply(sl, s) == xtranslate(s, a, b)
 //@ func translateFunc$1
-//@   props C15 C04 C05 C13
-//@   theory stream for C04 C05 C14 C13
+//@   mode int
+//@   props C15 C04 C05 C13 C09
+//@   theory stream for C04 C05 C14 C13 C09
+//@   loop 0 invariant[pair-count@C09] ascii(src) ==> 0 <= rangeidx(0) && rangeidx(0) <= len(src) && len(replace) == 2 * rangeidx(0)
+//@   loop 0 invariant[pair-list@C09] ascii(src) ==> pairsOf(replace, src, dst, rangeidx(0))
+//@   apply replacerTranslate(replace, str, src, dst)
+//@   ensures[translate@C09] ascii(src) && ascii(dst) ==> result == box(xtranslate(str, src, dst))
 //@   ensures[pure-arg1@C04,C05] stateless(arg1) || k(arg1) == old(k(arg1)) && epoch(arg1) == old(epoch(arg1))
 //@   ensures[pure-arg2@C04,C05] stateless(arg2) || k(arg2) == old(k(arg2)) && epoch(arg2) == old(epoch(arg2))
 //@   ensures[pure-arg3@C04,C05] stateless(arg3) || k(arg3) == old(k(arg3)) && epoch(arg3) == old(epoch(arg3))
